@@ -157,7 +157,9 @@ static void HandleBuildLog(const json& in) {
       bool ok = bl && bl->RecordCommand(e, op.value("start", 0), op.value("end", 0), op.value("mtime", (int64_t)0));
       r["ok"] = ok;
     } else if (k == "close") {
-      if (bl) bl->Close();
+      // the session ends here: the object must not live on (its destructor re-opens the file to make sure it exists,
+      // which in a real process happens at exit, never after a later tear)
+      if (bl) { bl->Close(); delete bl; bl = nullptr; }
     } else if (k == "truncate") {
       if (truncate(path.c_str(), op["n"].get<int64_t>()) != 0) r["errno"] = errno;
     } else if (k == "truncate_back") {
